@@ -68,7 +68,7 @@ def run(ctx):
     ctx.bounds["collapse_paths"] = len(vec)
     rng = random.Random(ctx.seed)
     for _ in range(50000 if thorough else 5000):
-        comps = [rng.choice(["a", "bb", "..", "..", "c.", "..x", "d", "."]) for _ in range(rng.randint(1, 8))]
+        comps = [rng.choice(["a", "bb", "..", "..", "c.", "..x", "x..", "d", ".", "..."]) for _ in range(rng.randint(1, 8))]
         vec.append(dict(comps=[[ord(c) for c in x] for x in comps], path=[ord(c) for c in "".join("/" + x for x in comps)]))
     p = ctx.write_ndjson("paths.ndjson", vec)
     ctx.driver("tree_driver", "asan", ["collapse", p, ctx.path("collapse.ndjson")])
